@@ -655,14 +655,14 @@ def run(ctx):
         sub = [n for n in sub if 'slinear' not in n and '[des' not in n and 'extrapolate' not in n]
     w = fresh_world()
     init = ((), private_state(w))
-    res = engine_states.explore([init], expand_factory(tier, base, base_snap, sub), lambda s: s[1], max_depth=5 if not ctx.quick else 3)
+    res = engine_states.explore([init], expand_factory(tier, base, base_snap, sub), lambda s: s[1], max_depth=4 if not ctx.quick else 3)
     ctx.violate(res.violations)
     ctx.cov.update(states=res.states, transitions=res.transitions, traces_validated_against_impl=res.transitions + npairs,
                    max_depth=res.max_depth, level_sizes=res.level_sizes, alphabet=len(allq), sub_alphabet=len(sub), exhaustive=True)
     ctx.cov['evaluations'] = res.transitions + npairs + len(allq)
     ctx.cov['distinct_nontrivial'] = res.states + npairs
     ctx.cov['rule'] = ('Part A: ordered pairs (q1, q2) of the query alphabet on freshly built objects (quick: cache-relevant sub-alphabet squared + every '
-                       'query x 18 probe queries; thorough: all x all fast queries, the slow ones - automatic model selection, psd_dft, RY-sphere - after the sub-alphabet, the probes and each other); Part B: BFS to depth 5 (quick: depth 3) over the '
+                       'query x 18 probe queries; thorough: all x all fast queries, the slow ones - automatic model selection, psd_dft, RY-sphere - after the sub-alphabet, the probes and each other); Part B: BFS to depth 4 (quick: depth 3) over the '
                        'private state of all objects (generic deep digest incl. interpolators, CoolProp state, module caches, lru_caches, class-level '
                        'containers) under the sub-alphabet. Oracle: outcome digest (12 significant digits / exception kind) equals the first-call '
                        'outcome; observable snapshot of every object unchanged.')
